@@ -22,6 +22,10 @@ RULE = ("(a) end to end through impl.assemble: every branch mnemonic (stub signa
         "pulled in by .include at a non-zero offset, and in an include repeated by .repeat (every copy judged at its own address), with and "
         "without an explicit .link, the target being an absolute number, a label or constant exported by the including / first file "
         "(before+k, after-k, tgt ==) or .+-k; same oracle (effective address decoded by the Spec = address named in the source); "
+        "(b'') name shadowing across files: the target is the name `done`, defined privately in the using file after or before the instruction and/or "
+        "exported (done::) by another file linked or included before or after it -- {own later, export only, both with own later, both with own "
+        "earlier} x {other first, other last, include first, include last}; the scoping rule (own file's definition first, then exports) selects "
+        "the address the decoded displacement must reach; "
         "(c) the stubs' inner functions driven directly through the real Instruction objects: OffsetOperandStub.fn of every branch "
         "mnemonic and sob over a window of targets around rel (quick +-600, thorough +-70000), ImmediateOperandStub.fn over +-600, the "
         "relative-mode lambdas over seeded (target, rel) pairs; compared with Model.Insns.enc_offset / enc_imm / enc_rel and with the Spec. "
@@ -557,6 +561,106 @@ def layout_cases(intro, brs, sobs, rng, tier):
 
 
 # ------------------------------------------------------------------------------------------------
+# name shadowing across files: the target is a NAME that may be defined privately in the using file (before or
+# after the instruction) and/or exported by another file that is linked / included before or after it.
+# Scoping rule (C11, Spec/Scope): the using file's own definition first, then exports.  Oracle unchanged:
+# the effective address decoded from the emitted displacement = address of the definition the rule selects.
+SHADOW_SCEN = ["own-later", "export-only", "both-own-later", "both-own-earlier"]
+SHADOW_ORDER = ["other-first", "other-last", "include-first", "include-last"]
+
+
+def shadow_program(scen, order, link, insn_line, ilen, rng):
+    """returns (files, fs, base, image offset of the instruction, total length, address the name must denote)"""
+    a, b = rng.choice([0, 2, 6]), rng.choice([0, 2, 4])
+    p, q = rng.choice([2, 4, 8]), rng.choice([0, 2, 6])
+    own_early = scen == "both-own-earlier"
+    own_late = scen in ("own-later", "both-own-later")
+    exported = scen != "own-later"
+    lib = ["lpad: .blkb " + IC.num(a + 2)] + (["done:: .blkb 2"] if exported else ["lfill: .blkb 2"]) + ["ltail: .blkb " + IC.num(b + 2)]
+    lib_len = a + 2 + 2 + b + 2
+    lib_done = a + 2
+    use = ["upad: .blkb " + IC.num(p)] + (["done: .blkb 2"] if own_early else []) + [insn_line, "umid: .blkb " + IC.num(q + 2)] + \
+          (["done: .blkb 2"] if own_late else []) + ["utail: .blkb 2"]
+    insn_off = p + (2 if own_early else 0)
+    own_off = p if own_early else (insn_off + ilen + q + 2 if own_late else None)
+    use_len = insn_off + ilen + q + 2 + (2 if own_late else 0) + 2
+    base = 0o1000 if link is None else link
+    head = [".link " + IC.octnum(link)] if link is not None else []
+    fs = None
+    if order == "other-first":
+        files = [("lib.mac", "\n".join(head + lib) + "\n"), ("use.mac", "\n".join(use) + "\n")]
+        lib_at, use_at = 0, lib_len
+    elif order == "other-last":
+        files = [("use.mac", "\n".join(head + use) + "\n"), ("lib.mac", "\n".join(lib) + "\n")]
+        lib_at, use_at = use_len, 0
+    elif order == "include-first":
+        files = [("use.mac", "\n".join(head + ['.include "lib.mac"'] + use) + "\n")]
+        fs = {"lib.mac": "\n".join(lib) + "\n"}
+        lib_at, use_at = 0, lib_len
+    else:
+        files = [("use.mac", "\n".join(head + use + ['.include "lib.mac"']) + "\n")]
+        fs = {"lib.mac": "\n".join(lib) + "\n"}
+        lib_at, use_at = use_len, 0
+    target = base + (use_at + own_off if own_off is not None else lib_at + lib_done)
+    return files, fs, base, use_at + insn_off, lib_len + use_len, target
+
+
+def shadow_cases(intro, brs, sobs, rng, tier):
+    by = {n: st for n, _p, st in intro}
+    cases = []
+    combos = [(sc, od) for sc in SHADOW_SCEN for od in SHADOW_ORDER]
+    for m in brs + sobs:
+        sob = m in sobs
+        for sc, od in (combos if tier == "thorough" else rng.sample(combos, 5) + [("both-own-later", "other-first")]):
+            link = rng.choice([None, 0o2000, 0o100000])
+            reg = rng.randrange(8) if sob else None
+            line = m + " " + (("r%d, " % reg) if sob else "") + "done"
+            files, fs, base, off, total, T = shadow_program(sc, od, link, line, 2, rng)
+            c = BrCase()
+            c.m, c.reg, c.t, c.addr = m, reg, T, base + off
+            c.d = T - (c.addr + 2)
+            c.off, c.total, c.lax = off, total, False
+            c.spelling = "shadow:%s:%s:%s" % (sc, od, "nolink" if link is None else "link")
+            c.files, c.fs, c.src = files, fs, files[0][1]
+            cases.append(c)
+    shapes = [("clr", "R"), ("tst", "@R"), ("jmp", "R"), ("mov", "R,r"), ("mov", "#,R"), ("mov", "#,@R"), ("cmp", "N,R"), ("jsr", "reg,R"),
+              ("ldf", "R,ac"), ("stf", "ac,@R"), ("push", "R"), ("call", "R")]
+    for m, shape in shapes:
+        if m not in by:
+            continue
+        for sc, od in (combos if tier == "thorough" else rng.sample(combos, 5) + [("both-own-later", rng.choice(["other-first", "include-first"]))]):
+            link = rng.choice([None, 0o2000, 0o100000])
+            parts = shape.split(",")
+            nwords = 1 + sum(1 for x in parts if x in ("R", "@R", "#", "N"))
+            texts, opsf, tested = [], [], None
+            for pi, x in enumerate(parts):
+                if x in ("R", "@R"):
+                    tested = pi
+                    k = rng.choice([0, 0, 2])
+                    texts.append(("@" if x == "@R" else "") + "done" + ("+2" if k else ""))
+                    opsf.append(lambda T, c=("ORelDef" if x == "@R" else "ORel"), k=k: (c, T + k))
+                elif x == "r":
+                    r = rng.randrange(6); texts.append(IC.REGNAMES[r]); opsf.append(lambda T, r=r: ("OReg", r))
+                elif x == "#":
+                    v = rng.choice(IC.VAL16[:8]); texts.append("#" + IC.num(v)); opsf.append(lambda T, v=v: ("OImm", v))
+                elif x == "N":
+                    v = rng.choice([0o100, 0o177776, 0]); texts.append(IC.octnum(v)); opsf.append(lambda T, v=v: ("ORel", v))
+                elif x == "reg":
+                    r = rng.randrange(8); texts.append(IC.REGNAMES[r]); opsf.append(lambda T, r=r: ("OReg", r))
+                elif x == "ac":
+                    n = rng.randrange(4); texts.append("ac%d" % n); opsf.append(lambda T, n=n: ("OAcc", n))
+            line = m + " " + ", ".join(texts)
+            files, fs, base, off, total, T = shadow_program(sc, od, link, line, 2 * nwords, rng)
+            c = RelCase()
+            c.m, c.ops, c.addr, c.i = m, [f(T) for f in opsf], base + off, tested
+            c.nwords, c.total, c.off, c.lax = nwords, total, off, False
+            c.files, c.fs, c.src = files, fs, files[0][1]
+            c.key = (m, "shadow:%s:%s:%s" % (sc, od, shape), c.addr, T, "@" in texts[tested], "nolink" if link is None else "link")
+            cases.append(c)
+    return cases
+
+
+# ------------------------------------------------------------------------------------------------
 def explore(rep, br, tier, seed):
     rng = random.Random(seed)
     intro = IC.introspect()
@@ -566,7 +670,7 @@ def explore(rep, br, tier, seed):
     if len(brs) < 15 or not sobs:
         rep.disagree("branch mnemonics found by introspection", {"branches": brs, "sob": sobs})
     # (a) end-to-end branches
-    lay = layout_cases(intro, brs, sobs, rng, tier)
+    lay = layout_cases(intro, brs, sobs, rng, tier) + shadow_cases(intro, brs, sobs, rng, tier)
     bc = branch_cases(brs, sobs, rng, tier) + [c for c in lay if isinstance(c, BrCase)]
     IC.run_cases(bc)
     for c in bc:
@@ -722,7 +826,7 @@ def search(rep, br, tier, seed):
 
 
 def explore_with(rep, rng, intro, brs, sobs):
-    lay = layout_cases(intro, brs, sobs, rng, "thorough")
+    lay = layout_cases(intro, brs, sobs, rng, "thorough") + shadow_cases(intro, brs, sobs, rng, "thorough")
     bc = branch_cases(brs, sobs, rng, "thorough") + [c for c in lay if isinstance(c, BrCase)]
     IC.run_cases(bc)
     codes = C.run_case_files(ID, REQ, PRE, C.shard([c.term() for c in bc], 500), judge_expr="map judge_branch cases")
